@@ -20,3 +20,11 @@ claim('C07', 'model_checking',
       'Bounded solver check: for every string of a stated finite family of well-formed Fortran expressions (all chains of <=3/4 binary operators with signs and parentheses, both comparison spellings, logical operators, kinds, subscripts, components, intrinsics) z3 shows parse_expr\'s tree and the FP frontend\'s tree for the same text have equal value for every valuation in the bound; the frontend oracle is itself cross-checked per string against an independent reference parser; sat models are replayed with gfortran.',
       'Trusted: value semantics in vlib/fsmt/sem.py, z3, gfortran for replay. Outside: strings/array constructors, overflow, FP rounding.',
       'SMT equivalence (z3, Int/Real and sized bit-vector encodings) of parser tree vs frontend tree, compiler replay', 'E-SMT', 'DESIGN.md#C07')
+claim('C08', 'model_checking',
+      'Bounded solver check: the real simplify() is run on every tree of a stated typed family (arithmetic depth<=2/3 over ints and reals, literal-heavy shapes with values -3..6, comparisons, logical trees) for subsets of the Simplification flags (all 32 in the thorough tier) and z3 decides whether any valuation (|v|<=6, non-zero divisors) separates tree and result, under truncating INTEGER division for integer trees and exact reals for real trees; sat models are replayed with gfortran. Thorough tier adds CrossHair conditions with symbolic literal values.',
+      'Trusted: vlib/fsmt value semantics, z3, gfortran replay. Reals are exact (re-association is not a violation). A crash of simplify is recorded but is not a value change.',
+      'SMT equivalence (z3 Int/BV/Real) of tree vs simplify(tree), rational-reading discriminator query, compiler replay', 'E-SMT', 'DESIGN.md#C08')
+claim('C10', 'model_checking',
+      '(A) CrossHair executes the real get_pyrange with symbolic start/stop (|.|<=6/9) per step of a grid and confirms over all paths that the sequence equals the Fortran DO sequence; (B) get_pyrange is re-translated from its source (ast->z3) on every run and z3 proves length and k-th element equal the Fortran trip-count semantics for unbounded start/stop per step; (C) the trees returned by num_iterations/normalized/iteration_number/iteration_index are encoded and z3 proves agreement with the visited sequence for every non-empty loop with |s|,|e|,|st|<=8.',
+      'Trusted: CrossHair/z3, vlib/pyast.py translation (CPython range formulas), vlib/fsmt semantics. Steps come from a concrete grid in (A)/(B).',
+      'CrossHair symbolic execution + ast->z3 translation + SMT equivalence of helper expression trees', 'E-XH', 'DESIGN.md#C10')
